@@ -181,6 +181,16 @@ def r2_guards(ck, w):
         tgt = dom[0][0]
         g_ver = mc.guard_between(b, lambda i, blk: switch_mentions(b, i, blk, want_const=lambda c: 'VERSION' in c or c.startswith('const 3') or '0x03' in c) , tgt)
         g_any = mc.guard_between(b, lambda i, blk: True, tgt)
+        if len(g_any) < 2 and 'midnight_proofs::plonk::VerifyingKey::read_from_cs' in getattr(w, 'inlined', {}).get('proofs', {}):
+            # guards moved into a NEW helper (expanded in the HIR view, not in MIR): count the escaping conditionals that precede the call in the expanded HIR
+            fh = w.fn('midnight_proofs::plonk::VerifyingKey::read_from_cs')
+            seen = []
+            for x in walk(fh['body']):
+                if x.get('k') in ('call', 'mcall') and (callee(x) or '').endswith('EvaluationDomain::new'):
+                    break
+                if x.get('k') == 'if' and taint.diverges(x['a']):
+                    seen.append(x)
+            g_any = seen
         ck.record('C16.R2', 'read_from_cs:version-and-k', len(g_any) >= 2,
                   f'{len(g_any)} escaping conditionals dominate EvaluationDomain::new (version byte, k <= S)',
                   f'read_from_cs: only {len(g_any)} escaping conditional(s) dominate EvaluationDomain::new; the version-byte test and the k <= S test are expected',
